@@ -1,12 +1,16 @@
 //! one module per property; `dispatch` selects by name
 use super::ShardArgs;
 
+pub mod common;
+
 pub mod c06;
+pub mod c08;
 
 pub fn dispatch(a: &ShardArgs) -> Result<(), String> {
     super::refcodec::link::self_test()?;
     match a.check.as_str() {
         "c06" => c06::run(a),
+        "c08" => c08::run(a),
         other => Err(format!("unknown check {other}")),
     }
 }
